@@ -283,7 +283,17 @@ def gen_subst(rnd):
     for k in range(n, 0, -1):
         subst = subst.replace('#%d' % k, protect(args[k - 1]))
     tail = rnd.choice([' ', '\n', '{} ', ', '])
-    where = rnd.choice(['direct', 'direct', 'inner', 'arg'])
+    where = rnd.choice(['direct', 'direct', 'inner', 'arg', 'definer'])
+    if where == 'definer':
+        # a macro that defines a macro: the name and the text arrive through parameters
+        defs += '\\newcommand{\\ydefm}[2]{\\newcommand{#1}{#2 ydmz}}\n'
+        u1, u2, u3 = W('u'), W('u'), W('u')
+        txt = args[0] if args and args[0].strip() else W('a')
+        use = '\\ynew{} '
+        doc = u1 + ' \\ydefm{\\ynew}{' + txt + '} ' + u2 + ' ' + use + u3 + ' ' + use + call + tail + W('u')
+        ref = (u1 + ' \\newcommand{\\ynew}{' + protect(txt) + ' ydmz} ' + u2 + ' ' + use + u3 + ' ' + use
+               + doc[doc.rindex(call):])
+        return defs, doc, ref, dict(where=where, kind=kind, args=args, body=body, opt=False, bare_before_brace=False)
     bare = call == '\\yby'       # no argument given at all: the call is a control word
     if not bare and re.search(r'\\[a-zA-Z]+$', call):
         tail = rnd.choice(['{} ', ', '])    # (white space behind an unbraced control-word argument is not judged)
@@ -455,7 +465,7 @@ class C09(core.Check):
                     obs=dict(D=tex.short(D, 200), B=tex.short(B, 150), plain=tex.short(t2, 120)))
 
     def quotas(self, tier):
-        return {'subst_optional_given': 300, 'subst_optional_default': 200, 'subst_cases': 3000, 'subst_inner': 500, 'subst_arg': 500, 'subst_arg_ends_with_control_word': 500, 'routes': 2000, 'inline': 500, 'ltinput_twice': 300, 'calls': 5000, 'unknown_uses': 100, 'default_used': 300,
+        return {'subst_definer': 300, 'subst_optional_given': 300, 'subst_optional_default': 200, 'subst_cases': 3000, 'subst_inner': 500, 'subst_arg': 500, 'subst_arg_ends_with_control_word': 500, 'routes': 2000, 'inline': 500, 'ltinput_twice': 300, 'calls': 5000, 'unknown_uses': 100, 'default_used': 300,
                 'nested_calls': 500}
 
 
